@@ -166,12 +166,12 @@ Print Assumptions c07_json_roundtrip.
 
 (* ---- samplers ----------------------------------------------------------------------------- *)
 (* EVERY sampler, the Quantized wrapper included, as a function of the raw numpy draw (u in [0,1)
-   or the randint/choice index within its contract), returns a member.  Side conditions
-   ([samp_hyp]): the integer log sampler (no clip in the code) needs the monotonicity/inverse
-   facts of log/exp; a quantisation factor is positive.  Float log / reverse-log samplers and all
-   quantised samplers need nothing: the code clips.
-   [Before the fixes of F-C07-1/2/9/10 this was REFUTED for Quantized: qrandint(1, 10, 4), raw
-    draw 1 -> round(1/4)*4 = 0 < lower, and needed the log/exp facts for the Float log samplers.] *)
+   or the randint/choice index within its contract), returns a member.  Only side condition
+   ([samp_hyp]): a quantisation factor is positive.  No fact about log/exp is needed: every log /
+   reverse-log sampler and the Quantized wrapper clip.
+   [Before the fixes of F-C07-1/2/9/10/14 this was REFUTED for Quantized: qrandint(1, 10, 4), raw
+    draw 1 -> round(1/4)*4 = 0 < lower, and needed monotonicity/inverse facts of log/exp for the
+    log samplers, which binary64 violates: lograndint(2**52+1, 2**52+2) sampled 2**52-12.] *)
 Theorem c07_sample_member :
   forall sc_log sc_rev d r x, dom_wf d -> samp_hyp sc_log sc_rev d ->
     raw_ok d r = true -> dom_sample sc_log sc_rev d r = Some x -> dom_member sc_log d x = true.
@@ -307,7 +307,8 @@ Proof.
 Qed.
 Print Assumptions c07_sample_member_R.
 
-(* lograndint sampler (no clip in the code): round(exp(uniform(ln lower, ln upper))) is a member *)
+(* lograndint sampler: round(exp(uniform(ln lower, ln upper))), the value BEFORE the clip of the
+   code, is already a member in real arithmetic (the clip only repairs binary64 round-off) *)
 Theorem c07_sample_member_integer_log_R :
   forall lo hi u, (1 <= lo <= hi)%Z -> 0 <= u <= 1 -> (lo <= sample_int_logR lo hi u <= hi)%Z.
 Proof. exact sample_int_logR_member. Qed.
